@@ -129,7 +129,9 @@ def run(check, repo: Repo) -> None:
                         if not any(e[3] is x for e in fills.get(t_.value.attr, [])):
                             fills.setdefault(t_.value.attr, []).append((mname_, f_, x.value, x))
     schema_writers = [(mname_, f_) for mname_, f_ in methods.items() if mname_ != "__init__" and
-                      any(isinstance(x, ast.Assign) and any(dotted(t_) == "self._fields" for t_ in x.targets) for x in ast.walk(f_))]
+                      any((isinstance(x, ast.Assign) and any(dotted(t_) == "self._fields" for t_ in x.targets))
+                          or (isinstance(x, ast.Call) and isinstance(x.func, ast.Attribute) and x.func.attr in ("extend", "append", "insert", "pop", "remove") and dotted(x.func.value) == "self._fields")
+                          or (isinstance(x, ast.AugAssign) and dotted(x.target) == "self._fields") for x in ast.walk(f_))]
     check.floor("methods that re-bind the field list", len(schema_writers), 3)
     if not fills:
         check.holds("C11-R11", "Vector: no per-instance cache besides the declared state (nothing can go stale across add_fields / remove_fields)", f"state = {sorted(CORE)}", mod.line(vcls))
@@ -261,12 +263,19 @@ def run(check, repo: Repo) -> None:
                                      f"self._fields was replaced: a rejected call leaves a corrupted schema behind",
                          # an explicit raise reached from the store with no restoring store in between: a CFG fact, independent of layout
                          definite=any(r in cfg.reachable_from(fs.id, avoid={o.id for o in fstores if o is not fs}) for r in late))
-    check.floor("schema stores outside setters", n_schema, 2)
+    n_inplace = sum(1 for f_ in methods.values() for x in ast.walk(f_) if (isinstance(x, ast.Call) and isinstance(x.func, ast.Attribute) and x.func.attr in ("extend", "append", "insert")
+                                                                              and dotted(x.func.value) == "self._fields") or (isinstance(x, ast.AugAssign) and dotted(x.target) == "self._fields"))
+    check.floor("schema stores outside setters", n_schema + n_inplace, 2)
     # add_fields: disjointness and uniqueness guards dominate the store
     _, af = repo.func(f"{VEC}:Vector.add_fields")
     acfg = CFG(af)
     afs = [n for n in acfg.nodes if n.kind == "stmt" and isinstance(n.stmt, ast.Assign)
            and any(dotted(t) == "self._fields" for t in n.stmt.targets)]
+    if not afs:
+        # the in-place form (`self._fields.extend(new)` / `self._fields += new`) is a store for the purpose of the guards
+        afs = [n for n in acfg.nodes if n.kind == "stmt" and any(
+            (isinstance(x, ast.Call) and isinstance(x.func, ast.Attribute) and x.func.attr in ("extend", "append", "insert") and dotted(x.func.value) == "self._fields")
+            or (isinstance(x, ast.AugAssign) and dotted(x.target) == "self._fields") for x in ast.walk(n.stmt))]
     if not afs:
         raise AnalysisError("add_fields: _fields store not found")
     disjoint = unique = False
@@ -334,12 +343,38 @@ def run(check, repo: Repo) -> None:
                                   for n in data_store)
     check.decide(ok, "C11-R3", "Vector.copy: _data is deep-copied", "", mod.line(cp),
                  fail_detail="copy() does not deep-copy the cell structure: the copy shares arrays (or lists) with the source")
-    for q, fn_ in (("validate_fields", vf), ("validate_vector_units", vu)):
+    # Two sites cooperate here: a validator that hands back the caller's list makes copies / slices SHARE the schema list with their source; that is only
+    # observable if some method then modifies such a list in place (re-binding a new list is harmless).  Either site alone keeps the invariants.
+    LMUT = ("extend", "append", "insert", "pop", "remove", "sort", "reverse", "clear")
+    inplace = {}
+    for mname_, f_ in methods.items():
+        for x in ast.walk(f_):
+            tgt_ = None
+            if isinstance(x, ast.Call) and isinstance(x.func, ast.Attribute) and x.func.attr in LMUT:
+                tgt_ = dotted(x.func.value)
+            elif isinstance(x, ast.AugAssign):
+                tgt_ = dotted(x.target)
+            elif isinstance(x, (ast.Assign, ast.Delete)):
+                for t_ in x.targets:
+                    if isinstance(t_, ast.Subscript):
+                        tgt_ = dotted(t_.value)
+            if tgt_ in ("self._fields", "self._units"):
+                inplace.setdefault(tgt_.split(".")[1], []).append((mname_, x))
+    for q, fn_, attr_ in (("validate_fields", vf, "_fields"), ("validate_vector_units", vu, "_units")):
         rets = [n.value for n in ast.walk(fn_) if isinstance(n, ast.Return) and n.value is not None]
         fresh = all(isinstance(r, (ast.ListComp, ast.BinOp, ast.List)) or (isinstance(r, ast.Call) and call_name(r) in ("list", "sorted"))
                     for r in rets) and bool(rets)
-        check.decide(fresh, "C11-R3", f"{q} returns a fresh list on every path (copies share no schema list)", "",
-                     vmod.line(fn_), fail_detail=f"{q} can return its argument: two vectors built from one list share it")
+        passthrough = [r for r in rets if isinstance(r, ast.Name) and r.id in func_params(fn_) and not definitions(fn_, r.id)]
+        muts_ = inplace.get(attr_, [])
+        key_ = f"{q} returns a fresh list on every path, or no method modifies `{attr_}` in place (copies and slices never observe each other's schema edits)"
+        if fresh or not muts_:
+            check.holds("C11-R3", key_, "fresh list" if fresh else f"the validator can hand back its argument, but `{attr_}` is only ever re-bound", vmod.line(fn_))
+        elif passthrough:
+            check.violated("C11-R3", key_, f"{q} returns its argument `{passthrough[0].id}` unchanged (copy()/slicing pass the source's list), and Vector.{muts_[0][0]} modifies the list in place "
+                           f"(`{unparse(muts_[0][1])[:50]}`): editing the schema of a copy or slice edits the source as well — more units than fields, shared mutable state",
+                           mod.line(muts_[0][1]), definite=True)
+        else:
+            raise AnalysisError(f"{q}: freshness of the returned list not decided while Vector.{muts_[0][0]} modifies `{attr_}` in place")
     for prop in ("fields", "units"):
         _, setter = repo.func(f"{VEC}:Vector.{prop}@setter")
         ok = any(isinstance(n, ast.Assign) and isinstance(n.value, ast.Call)
